@@ -169,4 +169,21 @@ theorem composite_injective (as bs : List (List UInt8))
 /-- a component of 65536 bytes is framed with length 0: the documented limitation is real -/
 theorem composite_truncates : be16 (65536 % 65536) = [0, 0] := by decide
 
+/-- for components that fit the unsigned 16-bit length the code's framing IS the specification's -/
+theorem composite_eq_frame : ∀ cs : List (List UInt8), (∀ c ∈ cs, c.length ≤ 65535) → composite cs = Spec.frame cs
+  | [], _ => rfl
+  | c :: cs, h => by
+    have hc : c.length ≤ 65535 := h c (by simp)
+    have ih := composite_eq_frame cs (fun d hd => h d (by simp [hd]))
+    have e1 : c.length % 65536 = c.length := Nat.mod_eq_of_lt (by omega)
+    have e2 : c.length / 256 % 256 = c.length / 256 := Nat.mod_eq_of_lt (by omega)
+    simp only [composite, Spec.frame, be16, e1, e2, ih]
+
+theorem routingKey_eq_spec (cs : List (List UInt8)) (h : ∀ c ∈ cs, c.length ≤ 65535) :
+    routingKey cs = Spec.routingKey cs := by
+  unfold routingKey Spec.routingKey
+  split
+  · rfl
+  · exact composite_eq_frame cs h
+
 end Token
